@@ -6,7 +6,6 @@ import (
 	"fmt"
 	"net"
 	"net/http"
-	"net/http/httptest"
 	"net/url"
 	"strings"
 	"time"
@@ -22,11 +21,50 @@ type respScript struct {
 	hdr     int
 	size    int
 	framing string // content-length, chunked, close
+	info    bool   // the backend sends "103 Early Hints" before the final response
 }
 
 func (r respScript) String() string {
-	return fmt.Sprintf("status=%d headers#%d body=%d framing=%s", r.status, r.hdr, r.size, r.framing)
+	s := fmt.Sprintf("status=%d headers#%d body=%d framing=%s", r.status, r.hdr, r.size, r.framing)
+	if r.info {
+		s += " after-103"
+	}
+	return s
 }
+
+var earlyHints = []byte("HTTP/1.1 103 Early Hints\r\nLink: </style.css>; rel=preload\r\n\r\n")
+
+// clientView is the client's side of the exchange as a net/http server would produce it: informational
+// (1xx) heads are passed on without ending the response, the first status >= 200 is THE status, a write
+// without one means 200.
+type clientView struct {
+	h      http.Header
+	code   int
+	final  http.Header
+	info   []int
+	body   bytes.Buffer
+	flushs int
+}
+
+func (c *clientView) Header() http.Header { return c.h }
+func (c *clientView) WriteHeader(code int) {
+	if code >= 100 && code < 200 && code != http.StatusSwitchingProtocols {
+		if c.code == 0 {
+			c.info = append(c.info, code)
+		}
+		return
+	}
+	if c.code == 0 {
+		c.code, c.final = code, c.h.Clone()
+	}
+}
+func (c *clientView) Write(p []byte) (int, error) {
+	if c.code == 0 {
+		c.WriteHeader(200)
+	}
+	return c.body.Write(p)
+}
+func (c *clientView) Flush() { c.flushs++ }
 
 var statusText = map[int]string{200: "OK", 201: "Created", 204: "No Content", 301: "Moved Permanently", 304: "Not Modified", 404: "Not Found", 500: "Internal Server Error", 503: "Service Unavailable"}
 
@@ -56,6 +94,9 @@ func (r respScript) steps() []step {
 	switch {
 	case bodyless:
 		head.WriteString("\r\n")
+		if r.info {
+			return []step{{stepWrite, earlyHints}, {stepWrite, head.Bytes()}}
+		}
 		return []step{{stepWrite, head.Bytes()}}
 	case r.framing == "content-length":
 		fmt.Fprintf(&head, "Content-Length: %d\r\n\r\n", len(body))
@@ -66,7 +107,11 @@ func (r respScript) steps() []step {
 	}
 	// split the head in two writes, the body in pieces of at most 16 KiB + 1
 	hb := head.Bytes()
-	out := []step{{stepWrite, hb[:len(hb)/2]}, {stepWrite, hb[len(hb)/2:]}}
+	var out []step
+	if r.info {
+		out = append(out, step{stepWrite, earlyHints})
+	}
+	out = append(out, step{stepWrite, hb[:len(hb)/2]}, step{stepWrite, hb[len(hb)/2:]})
 	const piece = 16*1024 + 1
 	for i := 0; i < len(body); i += piece {
 		j := i + piece
@@ -101,7 +146,10 @@ func respScripts(tier string) []respScript {
 					if (st == 204 || st == 304) && (sz != 0 || fr != "content-length") {
 						continue
 					}
-					out = append(out, respScript{st, h, sz, fr})
+					out = append(out, respScript{st, h, sz, fr, false})
+					if h == 0 && sz <= 4095 {
+						out = append(out, respScript{st, h, sz, fr, true})
+					}
 				}
 			}
 		}
@@ -139,6 +187,7 @@ var reqShapes = []reqShape{
 }
 
 type c16world struct {
+	stalling bool // the current script contains a stall: use the forwarder with the short response-header timeout
 	shape    int
 	backend  *Backend
 	proxy    http.Handler
@@ -150,11 +199,19 @@ type c16world struct {
 func newC16World() *c16world {
 	w := &c16world{backend: NewBackend()}
 	w.url = &url.URL{Scheme: "http", Host: w.backend.Addr}
+	// two forwarders: the response-header timeout of 150ms is part of the STALL scenarios only; every other
+	// exchange runs with a 20s timeout so that a loaded machine cannot turn a healthy relay into a 504
 	f := forward.New(false)
 	f.Transport = &http.Transport{ResponseHeaderTimeout: 150 * time.Millisecond, MaxIdleConns: 1, IdleConnTimeout: time.Second}
+	fPatient := forward.New(false)
+	fPatient.Transport = &http.Transport{ResponseHeaderTimeout: 20 * time.Second, MaxIdleConns: 1, IdleConnTimeout: time.Second}
 	inner := http.HandlerFunc(func(rw http.ResponseWriter, r *http.Request) {
 		r.URL = w.url
-		f.ServeHTTP(rw, r)
+		if w.stalling {
+			f.ServeHTTP(rw, r)
+		} else {
+			fPatient.ServeHTTP(rw, r)
+		}
 	})
 	w.proxy = forward.NewStateListener(inner, func(u *url.URL, state int) { w.events = append(w.events, state) })
 	return w
@@ -168,12 +225,19 @@ type outcome struct {
 	hung   bool
 	events []int
 	pwCode int
+	info   []int
 }
 
 // exchange runs one request through the proxy with a watchdog; cancelAfterArrival
 // cancels the request's context once the backend has received it.
 func (w *c16world) exchange(script []step, target *url.URL, cancelOnArrival bool) (outcome, func()) {
 	w.events = nil
+	w.stalling = false
+	for _, st := range script {
+		if st.kind == stepStall {
+			w.stalling = true
+		}
+	}
 	w.backend.Drain()
 	release := w.backend.Play(script)
 	saved := w.url
@@ -197,14 +261,20 @@ func (w *c16world) exchange(script []step, target *url.URL, cancelOnArrival bool
 	req := parsed.WithContext(ctx)
 	done := make(chan outcome, 1)
 	go func() {
-		rr := httptest.NewRecorder()
+		rr := &clientView{h: http.Header{}}
 		pw := utils.NewProxyWriter(rr)
 		var o outcome
 		func() {
 			defer func() { o.panic = recover() }()
 			w.proxy.ServeHTTP(pw, req)
 		}()
-		o.code, o.body, o.header, o.pwCode = rr.Code, rr.Body.Bytes(), rr.Header(), pw.StatusCode()
+		o.code, o.body, o.header, o.pwCode, o.info = rr.code, rr.body.Bytes(), rr.final, pw.StatusCode(), rr.info
+		if o.code == 0 && o.panic == nil {
+			o.code, o.header = 200, rr.h // the handler returned without a status: net/http sends 200
+		}
+		if o.header == nil {
+			o.header = http.Header{}
+		}
 		done <- o
 	}()
 	if cancelOnArrival {
@@ -278,6 +348,13 @@ func runFaultFree(w *c16world, r respScript, rep *lib.Report) {
 		rep.Violate("C16:listener-events-unpaired:fault-free", fmt.Sprintf("%v: events %v", r, o.events), what)
 		return
 	}
+	if r.info {
+		rep.Count("relays_after_an_informational_response")
+		if o.pwCode != r.status {
+			rep.Violate("C16:recorded-status-differs", fmt.Sprintf("%v: the status-recording writer in front of the forwarder recorded %d (informational %v were relayed first)", r, o.pwCode, o.info), what)
+			return
+		}
+	}
 	if r.size > 4096 {
 		rep.Count("large_bodies_relayed")
 	}
@@ -302,9 +379,14 @@ func runFault(w *c16world, r respScript, k int, kind stepKind, rep *lib.Report) 
 	if r.status == 204 || r.status == 304 {
 		headSteps = 1
 	}
+	if r.info {
+		headSteps++ // the informational head comes first
+	}
 	phase := "before-any-byte"
 	switch {
 	case k == 0:
+	case r.info && k == 1:
+		phase = "after-informational" // 103 relayed, nothing of the final response yet
 	case k < headSteps:
 		phase = "inside-head"
 	case k == len(steps):
@@ -330,13 +412,26 @@ func runFault(w *c16world, r respScript, k int, kind stepKind, rep *lib.Report) 
 		}
 	}
 	switch phase {
+	case "after-informational":
+		// the backend HAS begun to respond (103 relayed) and then fails before the final head: like a broken
+		// head this may be mapped to 500 or 502; a stall is still a response timeout
+		if kind == stepStall {
+			if o.panic != nil || o.code != 504 {
+				rep.Violate("C16:wrong-gateway-status:"+tag, fmt.Sprintf("%v: backend stalled after the informational response: client got %d (panic %v), want 504", r, o.code, o.panic), what)
+				return
+			}
+		} else if o.panic != nil || (o.code != 500 && o.code != 502) {
+			rep.Violate("C16:wrong-gateway-status:"+tag, fmt.Sprintf("%v: backend %s after the informational response: client got %d (panic %v), want an error status (500 or 502)", r, kn, o.code, o.panic), what)
+			return
+		}
+		rep.Count("gateway_errors_mapped")
 	case "before-any-byte":
 		want := 502
 		if kind == stepStall {
 			want = 504
 		}
 		if o.panic != nil || o.code != want {
-			rep.Violate(fmt.Sprintf("C16:wrong-gateway-status:%s", tag), fmt.Sprintf("%v: backend %s before sending anything: client got %d (panic %v), want %d", r, kn, o.code, o.panic, want), what)
+			rep.Violate(fmt.Sprintf("C16:wrong-gateway-status:%s", tag), fmt.Sprintf("%v: backend %s %s: client got %d (panic %v), want %d", r, kn, phase, o.code, o.panic, want), what)
 			return
 		}
 		rep.Count("gateway_errors_mapped")
@@ -438,9 +533,9 @@ func runSpecials(w *c16world, rep *lib.Report) {
 func RunC16(tier string, sh lib.Shard, rep *lib.Report) {
 	scripts := respScripts(tier)
 	rep.Bounds["response_scripts"] = len(scripts)
-	rep.Rule = "every backend response script (8 statuses x 3 header sets x body sizes {0,1,4KiB-1,32KiB+1(,1MiB)} x framing {Content-Length, chunked, close-delimited}, written in several pieces) relayed fault-free under each of 16 client request heads (Connection with empty list elements, twice, close, upgrade without Upgrade; TE; empty/list forwarding headers; long and empty values; POST declared/chunked/empty; OPTIONS), and with a fault {close, reset, stall} injected at EVERY step index of the script; plus connection refused, garbage heads and client cancellation; raw TCP backend, real forward.New proxy wrapped in a StateListener and a status-recording writer; non-trivial = faults injected"
-	rep.Assume("ResponseHeaderTimeout 150ms is part of the scenario (backend stalls until released); 30s watchdog, hits re-run 5x", "broken or garbage heads may map to 500 or 502")
-	rep.Require("fault_free_relays", "relays_with_unusual_request_heads", "large_bodies_relayed", "faults_injected", "gateway_errors_mapped", "aborted_mid_body")
+	rep.Rule = "every backend response script (8 statuses x 3 header sets x body sizes {0,1,4KiB-1,32KiB+1(,1MiB)} x framing {Content-Length, chunked, close-delimited}, written in several pieces; a third of them also preceded by a 103 informational response) relayed fault-free under each of 16 client request heads (Connection with empty list elements, twice, close, upgrade without Upgrade; TE; empty/list forwarding headers; long and empty values; POST declared/chunked/empty; OPTIONS), and with a fault {close, reset, stall} injected at EVERY step index of the script; plus connection refused, garbage heads and client cancellation; raw TCP backend, real forward.New proxy wrapped in a StateListener and a status-recording writer; non-trivial = faults injected"
+	rep.Assume("ResponseHeaderTimeout 150ms is part of the stall scenarios (backend stalls until released), 20s everywhere else; 30s watchdog, hits re-run 5x", "broken or garbage heads may map to 500 or 502")
+	rep.Require("fault_free_relays", "relays_after_an_informational_response", "relays_with_unusual_request_heads", "large_bodies_relayed", "faults_injected", "gateway_errors_mapped", "aborted_mid_body")
 	w := newC16World()
 	defer w.backend.Close()
 	k := 0
